@@ -35,6 +35,7 @@ pub struct Case {
     pub creates: Vec<(CreateSpec, POp)>,
     pub prefix: Vec<POp>,
     pub probes: Vec<Probe>,
+    #[serde(default)]
     /// per probe: walk the tolerances upwards (boundary-focused: rejections until the first value that
     /// must be accepted) or downwards (monotonicity-focused)
     pub ascending: Vec<bool>,
